@@ -13,8 +13,9 @@ MATCHERS = {}
 
 
 def regen():
-    from translate import named, strhelpers, parsersrc
+    from translate import named, strhelpers, parsersrc, convstr
     named.generate()
+    convstr.generate()          # CmGen/ConvStr.lean: the input parsing of hsl_to_rgb as it reads now (CmProps/C07conv.lean)
     parsersrc.generate()        # CmGen/ParserSrc.lean: the string branch of parse_color_to_rgb as it reads now (CmProps/C07parse.lean)
     strhelpers.generate()       # CmGen/StrHelpers.lean: the parser's string-to-number helpers as they read now (CmProps/C07tie.lean)
 
